@@ -37,7 +37,7 @@ CLAIMED = {
          "Trusted: independent parser with wide arithmetic. Unknown info ids are don't-care for accept/reject; duplicate keys are don't-care for map equality. Field-value enumeration (all 65536 size fields) is not attempted.", "4 C10"),
  "C12": ("Seeded exploration of exchanges between a writer peer (in-place, append or stream message-begin writer, the stream writer also after unflushed data) and a reader peer (buffer reader; stream reader over a fragmenting Source) joined by a transport that truncates at any cut point or corrupts the first word: same name/type/seq and exact consumed length, bad-version and truncation rejected; by-product: MarshalFastMsg/UnmarshalFastMsg incl. the EXCEPTION branch.",
          "Trusted: reference envelope codec. Value-space clauses are sampled.", "4 C12"),
- "C14": ("Seeded schedule exploration: 2..8 tasks (writers, readers, the three skip decoders, TTHeader codecs, span-cache decodes, FastCodec structs, shared StrMap/Str2Str Get) are first executed alone, then re-executed with exactly the same decisions under a seeded cooperative scheduler that switches at allocator calls, source reads, sink writes and step boundaries; each task's observable results must equal its solo execution, the allocator ledger/fence must stay clean, and the same tapes run in the -race build where the hand-off is invisible to the race detector, so unsynchronised sharing is reported whatever the interleaving was.",
+ "C14": ("Seeded schedule exploration: 2..8 tasks (writers, readers, the three skip decoders, TTHeader codecs, span-cache decodes, FastCodec structs, shared StrMap/Str2Str Get) are first executed alone, then re-executed with exactly the same decisions under a seeded cooperative scheduler that switches at allocator calls, source reads, sink writes and step boundaries; each task's observable results must equal its solo execution, the allocator ledger/fence must stay clean, the same tapes run in the -race build where the hand-off is invisible to the race detector, so unsynchronised sharing is reported whatever the interleaving was, and in a fine-grained build in which a scratch copy of the library is rewritten (go/ast) so that every statement is a scheduling point and the string-map hash seed is simulator-controlled, which puts interleavings inside library calls (e.g. between two atomic operations of a lock-free cache) into the seeded schedule space.",
          "Trusted: the norace hand-off scheduler, the Go race detector (happens-before; 4 shadow cells per word; reports may need the preceding runs of the same worker, which the replay file records). Interleavings are explored at allocator/I-O/step granularity.", "4 C14"),
  "C16": ("Seeded exploration of decode histories (buffer readers and the stream reader over a Source, lengths across the span classes, long enough in the thorough tier to wrap the 1 MiB span) in which every decoded value is retained while the input buffer is overwritten, the stream reader's buffer is recycled (poisoned / taken by the co-tenant) and returned byte slices are appended to and overwritten; the same pre-generated history runs with the span cache disabled and enabled and the results are compared.",
          "Trusted: keyed-content comparison; the span cache's fill position is global state that cannot be reset and is kept out of all oracles.", "4 C16"),
@@ -67,7 +67,7 @@ def main():
     m = {
      "version":1,
      "setup_cmd":"./check.sh --setup",
-     "hooks":{"guard":"verif","enable":"no hooks in /repo: every seam is an existing interface (io.Reader/io.Writer arguments) or the bytedance/gopkg mcache+dirtmake dependency, replaced at build time with `go build -overlay` by /verif/shim (GODEBUG=goindex=0)","baseline_off_cmd":"cd /repo && go test -vet=off -count=1 ./...","source_commits":[],"add_only":True},
+     "hooks":{"guard":"verif","enable":"no hooks in /repo: every seam is an existing interface (io.Reader/io.Writer arguments), the bytedance/gopkg mcache+dirtmake dependency replaced at build time with `go build -overlay` by /verif/shim (GODEBUG=goindex=0), or - for C14's fine-grained build - statement-level scheduling points inserted by /verif/harness/cmd/instrument into a scratch copy of the working tree under /verif/build (never into /repo)","baseline_off_cmd":"cd /repo && go test -vet=off -count=1 ./...","source_commits":[],"add_only":True},
      "engines":[{"name":"simcheck","path":"/verif/harness","serves_properties":sorted(CLAIMED.keys()),"kind_free_text":"deterministic simulator: multi-stream choice tape from VERIF_SEED, simulated io.Reader/io.Writer, overlay allocator shim (ledger/poison/fence), seeded cooperative scheduler, reference models, tape shrinker, replay files; 16 single-P worker processes"}],
      "checks":checks,
      "notes":"See DESIGN.md. Exit codes: 0 held, 1 VIOLATION line, 2 build/watchdog/harness fault. known_findings.json lists repaired defects (status fixed suppresses nothing).",
